@@ -14,8 +14,8 @@ MODELLED = ("generated: every fclose/fflush/fwrite/fputs/fputc/putc/fprintf/vfpr
             "(Model/Emit.lean); libc buffering only as 'the error surfaces at a write, flush or close'")
 _E = "AldorVerif.Emit."
 THEOREMS = [("AldorVerif.Props.C18", _E + t) for t in (
-    "checked_implies_honest", "all_sites_checked_refuted", "unchecked_close_sites", "no_site_checked",
-    "every_kind_has_unchecked_close", "unchecked_site_dishonest", "dishonest_today")]
+    "checked_implies_honest", "all_sites_checked", "honest_today", "every_kind_has_checked_close",
+    "unchecked_site_dishonest")]
 
 PROGRAMS = {
 "hello": '''#include "aldor"
@@ -99,35 +99,47 @@ def one_run(cmd, base, prog, flags, env=None, prep=None, cwd_removed=False, tmo=
     return rc, (out + err).decode("latin1"), files, log
 
 # ------------------------------------------------------------------------------------------------
-def compare_sites(ctx, build):
-    """regenerate the site list from the tree under test and compare it (without line numbers)
-    with the list the theorems were checked against"""
-    sys.path.insert(0, os.path.join(VERIF, "translate"))
+GEN = os.path.join(common.LEAN, "AldorVerif", "Gen", "EmitSites.lean")
+
+def _translator():
+    tdir = os.path.join(VERIF, "translate")
+    if tdir not in sys.path: sys.path.insert(0, tdir)
     import emitclose
-    rows = emitclose.generate(build.src)
-    cur = sorted((r["kind"], r["file"], r["func"], r["callee"], r["op"], r["use"], bool(r["checked"])) for r in rows)
-    lean = open(os.path.join(common.LEAN, "AldorVerif", "Gen", "EmitSites.lean")).read()
-    com = []
-    for m in re.finditer(r'⟨"([^"]*)", "([^"]*)", (\d+), "([^"]*)", \.(\w+), "([^"]*)", (true|false), "([^"]*)"⟩', lean):
-        f, fn, ln, cal, op, use, chk, kind = m.groups()
-        com.append((kind, f, fn, cal, op, use, chk == "true"))
-    com.sort()
-    st = {"sites": len(cur), "unchecked": sum(1 for r in cur if not r[6]),
-          "unchecked_close": sum(1 for r in cur if not r[6] and r[4] == "close"),
-          "by_use": {}}
-    for r in cur:
-        st["by_use"][r[5]] = st["by_use"].get(r[5], 0) + 1
-    if cur != com:
-        added = [r for r in cur if r not in com]
-        gone = [r for r in com if r not in cur]
-        st["differs_from_committed"] = {"added": added[:20], "removed": gone[:20]}
-        newly_unchecked = [r for r in added if not r[6]]
-        ctx.violation("emit|sites-changed",
-                      "the stdio call sites on output streams of the tree under test differ from lean/AldorVerif/Gen/EmitSites.lean "
-                      "(the list the C18 theorems are about): %d added %s, %d removed %s; %d of the added ones are unchecked. "
-                      "Regenerate with `python3 translate/emitclose.py <src> lean/AldorVerif/Gen/EmitSites.lean` and re-check Props/C18.lean"
-                      % (len(added), added[:3], len(gone), gone[:3], len(newly_unchecked)),
-                      {"kind": "generated-input-stale", "added": added, "removed": gone}, found_input=False)
+    return emitclose
+
+def prepare(src_dir=None):
+    """regenerate Gen/EmitSites.lean from the tree under test (called by run_parts before the Lean build):
+    `all_sites_checked` is then re-proved by `decide` about exactly the stdio calls of that tree, and an
+    unchecked fclose/fwrite that appears (or a check that disappears) breaks the proof."""
+    ec = _translator()
+    rows = ec.generate(src_dir or common.SRC)
+    text = ec.lean_of(rows, src_dir or common.SRC)
+    if not os.path.exists(GEN) or open(GEN).read() != text:
+        os.makedirs(os.path.dirname(GEN), exist_ok=True)
+        with open(GEN, "w") as f:
+            f.write(text)
+    return rows
+
+def site_report(ctx, build):
+    """statistics of the regenerated table; unchecked sites are named (the theorem all_sites_checked
+    fails with them, the fault injection below looks for the run that shows it)"""
+    rows = prepare(build.src)
+    st = {"sites": len(rows), "unchecked": sum(1 for r in rows if not r["checked"]),
+          "close_sites": sum(1 for r in rows if r["op"] == "close"), "by_use": {}, "kinds": sorted({r["kind"] for r in rows})}
+    for r in rows:
+        st["by_use"][r["use"]] = st["by_use"].get(r["use"], 0) + 1
+    bad = [r for r in rows if not r["checked"]]
+    if bad:
+        st["unchecked_sites"] = ["%s:%s:%d %s [%s] %s" % (r["file"], r["func"], r["line"], r["callee"], r["kind"], r["use"]) for r in bad][:40]
+        ctx.violation("emit|unchecked-site|" + "|".join(sorted({"%s:%s:%s:%s" % (r["file"], r["func"], r["callee"], r["kind"]) for r in bad}))[:300],
+                      "%d stdio call(s) on output streams are unchecked (result not tested and no ferror consult before the close), "
+                      "theorem all_sites_checked does not hold of this tree: %s" % (len(bad), "; ".join(st["unchecked_sites"][:6])),
+                      {"kind": "unchecked-output-site", "sites": st["unchecked_sites"]}, found_input=False)
+    missing = [k for k in ("ai", "ap", "asy", "ao", "fm", "lsp", "c", "java") if not any(r["kind"] == k and r["op"] == "close" for r in rows)]
+    if missing:
+        ctx.violation("emit|no-close-site|" + ",".join(missing),
+                      "the translator finds no close of the output stream for kind(s) %s (the checked closing helper is gone?)" % missing,
+                      {"kind": "generated-table", "missing": missing}, found_input=False)
     ctx.cov["emit_sites"] = st
     return rows
 
@@ -139,7 +151,7 @@ def build_shim(base):
     return so
 
 def run_part(ctx, build):
-    compare_sites(ctx, build)
+    site_report(ctx, build)
     thorough = ctx.tier == "thorough"
     rng = ctx.rng
     base = common.scratch("aldor-verif-c18-")
